@@ -42,8 +42,20 @@ RULE = ("four streams. fit: random sets of 1..4 state trajectories (lengths 1..1
         "1e-12 (measured on the unchanged code: <= 4e-15), values against LAPACK at 1e-12, first vector and eq_probs against "
         "the stationary distribution solved in rationals (50 % per component; measured <= 1.3 %). bigeig: "
         "the sparse decomposition repeated twice in the same process must be bit-identical. "
+        "Round 3s (D): imp on lag-time lists as scans produce them -- rounded log-spaced grids ([1, 1, 2, 3, 5, 8]), an explicit "
+        "repeat ([2, 5, 5, 9]), repeats far apart ([3, 1, 3]), unsorted lists, both at once, one lag time several times (lags 1..10, "
+        "trajectories of 20..36 frames; every style in every run): the result has one row per ENTRY of lag_times and row i equals "
+        "calc_imp_times for lag_times[i] (1e-9), rows of equal lag times are equal; the Coq comparison (map over the list) is "
+        "kept for these lists. densebig: ONE dense C-contiguous float64 ndarray with 1000..1100 states per quick run (thorough: also "
+        "Fortran-ordered, left=False, second call through eigenspectrum): a strongly connected lazy ring with ~6 random hops per "
+        "state, row-normalised; eigenspectrum(T), then the SAME object through eq_probs / eigenspectrum again, then "
+        "synthetic_ensemble(T, p0, 6), then builders.normalize on the dense counts: the caller's array is compared with a snapshot "
+        "taken before the call after every step (argument-modified), the first vector must be stationary for the snapshot AND for "
+        "the matrix the caller holds afterwards (1e-8; measured 1e-17), the second decomposition must agree with the first (1e-8; "
+        "measured 0), the ensemble history must be p0 . T^k of the snapshot (1e-9), normalize must return counts/rowsum (1e-12) with "
+        "stationary populations; oracle only (no Coq term at this size), results are small summaries. "
         "non-trivial := hist: >= 2 successful fits with >= 2 states; fit: >= 2 states kept and >= 3 transitions counted; eig: >= 3 states; ens: >= 2 steps and "
-        ">= 2 states; imp: >= 1 finite timescale")
+        ">= 2 states; imp: >= 1 finite timescale; densebig: every step ran")
 TRUSTED = ["translator/tr_msm.py (attribute stores of MSM.__init__, argument binding of the calls in fit and "
            "calc_imp_times against the callees' signatures, config dict, MSM(**config))",
            "translator/tr_spectrum.py + the NumPy vocabulary of Base/MsmSpecBase.v, Base/MsmAuxBase.v (eigenspectrum's "
@@ -276,6 +288,60 @@ def _gen_imp(rng):
             "sliding": rng.random() < 0.5, "trim": rng.random() < 0.5}
 
 
+# ---- round 3s (D): lag-time grids with repeats / out of order; dense >= 1000-state matrices ---------------------
+GRID_STYLES = ["loggrid", "dup-sorted", "dup-apart", "unsorted", "dup-unsorted", "all-same"]
+
+
+def _gen_imp_grid(rng, style):
+    """implied_timescales on lag-time lists as scans produce them: rounded log-spaced grids (the short lag times come
+    out several times: [1, 1, 2, 3, 5, 8]), an explicit repeat ([2, 5, 5, 9]), repeats far apart ([3, 1, 3]), lists
+    that are not sorted, both at once, one lag time asked for several times.  Row i of the result belongs to
+    lag_times[i]."""
+    ns = rng.randint(2, 5)
+    trjs = []
+    for _ in range(rng.randint(1, 3)):
+        s = rng.randrange(ns)
+        t = []
+        for _ in range(rng.choice([20, 24, 30, 36])):
+            if rng.random() < 0.4:
+                s = rng.randrange(ns)
+            t.append(s)
+        trjs.append(t)
+    if len({x for t in trjs for x in t}) < 2 or max(max(t) for t in trjs) < 1:
+        trjs[0][0:2] = [0, 1]
+    pool = list(range(1, 9))
+    if style == "loggrid":
+        top, m = rng.choice([5, 8, 10]), rng.randint(5, 8)           # top^(1/(m-1)) < 2: the grid starts 1, 1, ...
+        lags = [max(1, int(top ** (i / (m - 1)) + 1e-9)) for i in range(m)]
+    elif style == "dup-sorted":
+        lags = sorted(rng.sample(pool, rng.randint(2, 4)))
+        i = rng.randrange(len(lags))
+        lags.insert(i, lags[i])
+    elif style == "dup-apart":
+        lags = rng.sample(pool, rng.randint(2, 4))
+        lags.append(lags[rng.randrange(len(lags) - 1)])
+    elif style == "all-same":
+        lags = [rng.choice(pool[:5])] * rng.randint(2, 4)
+    else:
+        lags = rng.sample(pool, rng.randint(2, 5 if style == "unsorted" else 4))
+        if style == "dup-unsorted":
+            for _ in range(rng.randint(1, 3)):
+                lags.insert(rng.randrange(len(lags) + 1), rng.choice(lags))
+        while lags == sorted(lags):
+            rng.shuffle(lags)
+    return {"kind": "imp", "trjs": trjs, "lags": lags, "grid": style,
+            "builder": rng.choice(["normalize", "transpose"]), "n_times": rng.choice([None, 1, 2, 3, 6]),
+            "sliding": rng.random() < 0.5, "trim": rng.random() < 0.3}
+
+
+def _gen_densebig(rng, order="C", left=True, second="eq_probs"):
+    """a dense ndarray transition matrix with 1000..1100 states (the size from which eigenspectrum stops densifying and
+    a caller's dense matrix goes to LAPACK as it is), decomposed, then used again"""
+    return {"kind": "densebig", "n": rng.randint(1000, 1100), "seed": rng.randrange(10 ** 6),
+            "n_eigs": rng.choice([None, 2, 3, 4, 6]), "order": order, "left": left, "second": second,
+            "counts_dtype": rng.choice(["int64", "float64"])}
+
+
 # ---- round 3s: estimator histories, near-symmetric rare-event chains -------------------------------------------
 def _kept_states(c):
     """original ids kept by the function pipeline for this configuration (None: rejected, or a weight tie)"""
@@ -464,6 +530,15 @@ def generate(rng, tier):
     for _ in range(1 if tier == "quick" else 3):
         cases.append({"kind": "bigeig", "m": rng.choice([500, 520, 601]), "seed": rng.randrange(10 ** 6),
                       "n_eigs": rng.choice([3, 4, 5]), "fmt": rng.choice(["csr_matrix", "coo_matrix"])})
+    # lag-time lists with repeated entries and / or out of order (every style in every run)
+    cases += [_gen_imp_grid(rng, GRID_STYLES[i % len(GRID_STYLES)]) for i in range(30 * k)]
+    # the dense >= 1000-state branch (LAPACK on the caller's ndarray): argument intact, same answer twice, later uses
+    cases.append(_gen_densebig(rng))
+    if tier == "thorough":
+        cases.append(_gen_densebig(rng, order="F"))
+        cases.append(_gen_densebig(rng, order="C", left=False, second="eigenspectrum"))
+        cases.append(_gen_densebig(rng, order="F", left=False, second="eigenspectrum"))
+        cases.append(_gen_densebig(rng, order="C", second="eigenspectrum"))
     if tier == "thorough":
         # small scope: every configuration of the estimator on a few fixed assignment sets
         import itertools
@@ -745,6 +820,117 @@ def _run_imp(c):
             out["spectra"].append([float(x) for x in ev])
         except Exception as ex:
             out["spectra"].append(None)
+    # row i of the result belongs to lag_times[i]: the single-lag computation asked for directly, lag time by lag time
+    # in the order (and as often as) the list names them
+    from enspara.msm.timescales import calc_imp_times
+    ns = max(max(t) for t in c["trjs"]) + 1
+    nt = min(c["n_times"] if c["n_times"] is not None else ns // 10 + 1, ns - 1)
+    ref = []
+    for lag in c["lags"]:
+        try:
+            with np.errstate(all="ignore"):
+                row = calc_imp_times(RaggedArray(c["trjs"]), lag, ns, nt, lambda C: f(C, calculate_eq_probs=False),
+                                     c["sliding"], c["trim"])
+            ref.append([None if not np.isfinite(x) else _fr(x) for x in np.asarray(row, dtype=float).ravel()])
+        except Exception as ex:
+            ref.append({"err": type(ex).__name__})
+    out["ref"] = ref
+    return out
+
+
+def _dense_counts(n, seed):
+    """dense strongly connected count matrix: a lazy ring plus ~6 random hops per state (integers, as float64)"""
+    rs = np.random.RandomState(seed)
+    C = np.zeros((n, n))
+    idx = np.arange(n)
+    C[idx, idx] = rs.randint(5, 30, n)
+    C[idx, (idx + 1) % n] += rs.randint(1, 9, n)
+    C[idx, (idx - 1) % n] += rs.randint(1, 9, n)
+    a, b = rs.randint(0, n, 6 * n), rs.randint(0, n, 6 * n)
+    np.add.at(C, (a, b), rs.randint(1, 5, 6 * n))
+    return C
+
+
+def _arr_summary(A, A0):
+    """how an array the caller holds compares with the snapshot taken before the call (small summary, no big lists)"""
+    same = bool(A.shape == A0.shape and A.dtype == A0.dtype and np.array_equal(A, A0))
+    out = {"same": same, "dtype": str(A.dtype), "c_contig": bool(A.flags["C_CONTIGUOUS"]), "f_contig": bool(A.flags["F_CONTIGUOUS"])}
+    if not same and A.shape == A0.shape:
+        with np.errstate(all="ignore"):
+            D = np.abs(np.asarray(A, dtype=float) - np.asarray(A0, dtype=float))
+            out["max_change"] = float(np.nanmax(D)) if np.isfinite(D).any() else None
+            out["n_changed"] = int((~(D == 0)).sum())
+            rs = np.asarray(A, dtype=float).sum(axis=1)
+            out["rowsum_range"] = [float(np.nanmin(rs)), float(np.nanmax(rs))]
+    return out
+
+
+def _run_densebig(c):
+    import hashlib
+    from enspara.msm import builders
+    from enspara.msm.transition_matrices import eigenspectrum, eq_probs
+    from enspara.msm.synthetic_data import synthetic_ensemble
+    n, left = c["n"], c["left"]
+    C = _dense_counts(n, c["seed"])
+    T0 = np.ascontiguousarray(C / C.sum(axis=1, keepdims=True), dtype=np.float64)       # the snapshot (never handed out)
+    T = np.array(T0, order=c["order"], copy=True)                                       # what the caller holds
+    out = {"input": {"dtype": str(T.dtype), "c_contig": bool(T.flags["C_CONTIGUOUS"]), "f_contig": bool(T.flags["F_CONTIGUOUS"]),
+                     "type": type(T).__name__, "sha": hashlib.sha256(T0.tobytes()).hexdigest()[:16],
+                     "rowsum_err": float(np.abs(T0.sum(axis=1) - 1).max()), "min_diag": float(T0.diagonal().min())}}
+    op = (lambda v, M: v @ M) if left else (lambda v, M: M @ v)
+
+    def digest(vals, vecs):
+        vals, v = np.array(vals, dtype=float, copy=True), np.array(vecs[:, 0], dtype=float, copy=True)
+        return {"vals": [float(x) for x in vals[:6]], "n_vals": int(len(vals)), "real": bool(np.isrealobj(vals) and np.isrealobj(vecs)),
+                "shape": list(np.shape(vecs)), "descending": bool(np.all(np.diff(vals) <= 1e-9)),
+                "sum": float(v.sum()), "min": float(v.min()), "head": [float(x) for x in v[:4]],
+                "resid_snapshot": float(np.abs(op(v, T0) - vals[0] * v).max()),
+                "resid_held": float(np.abs(op(v, T) - vals[0] * v).max())}, vals, v
+    try:
+        vals, vecs = eigenspectrum(T, n_eigs=c["n_eigs"], left=left)
+        out["first"], vals1, v1 = digest(vals, vecs)
+        out["arg_after_first"] = _arr_summary(T, T0)
+        # the same object decomposed again (through eq_probs, or eigenspectrum once more)
+        if c["second"] == "eq_probs":
+            pi2 = np.array(eq_probs(T), dtype=float, copy=True)
+            out["second"] = {"via": "eq_probs", "d_vec": float(np.abs(pi2 - v1).max()), "d_vals": None,
+                             "resid_snapshot": float(np.abs(pi2 @ T0 - pi2).max()), "head": [float(x) for x in pi2[:4]]}
+        else:
+            vals2, vecs2 = eigenspectrum(T, n_eigs=c["n_eigs"], left=left)
+            d2, vals2, v2 = digest(vals2, vecs2)
+            out["second"] = {"via": "eigenspectrum", "d_vec": float(np.abs(v2 - v1).max()),
+                             "d_vals": float(np.abs(vals2 - vals1).max()) if len(vals2) == len(vals1) else None,
+                             "resid_snapshot": d2["resid_snapshot"], "head": d2["head"]}
+        out["arg_after_second"] = _arr_summary(T, T0)
+        # ... and propagated: row k of the history is p0 . T^k for the matrix the caller passed in
+        p0 = np.zeros(n)
+        p0[c["seed"] % n] = 1.0
+        p_end, hist = synthetic_ensemble(T, p0, 6)
+        want = [p0]
+        for _ in range(5):
+            want.append(want[-1] @ T0)
+        hist = np.asarray(hist, dtype=float)
+        out["ens"] = {"d_end": float(np.abs(np.asarray(p_end, dtype=float) - want[-1]).max()),
+                      "d_hist": float(np.abs(hist - np.array(want)).max()) if hist.shape == (6, n) else None,
+                      "total": float(np.asarray(p_end, dtype=float).sum())}
+        out["arg_after_ens"] = _arr_summary(T, T0)
+    except Exception as ex:
+        out["err"] = type(ex).__name__
+        out["msg"] = str(ex)[:200]
+        return out
+    # the function pipeline on dense counts of this size: builders.normalize hands back counts / rowsum and its populations
+    try:
+        Cn0 = C.astype(c["counts_dtype"])
+        Cn = Cn0.copy()
+        C_out, T_out, pi_out = builders.normalize(Cn)
+        T_out, pi_out = np.asarray(T_out, dtype=float), np.array(pi_out, dtype=float, copy=True)
+        out["norm"] = {"d_T": float(np.abs(T_out - T0).max()) if T_out.shape == T0.shape else None,
+                       "rowsum_range": [float(T_out.sum(axis=1).min()), float(T_out.sum(axis=1).max())],
+                       "resid": float(np.abs(pi_out @ T0 - pi_out).max()), "sum": float(pi_out.sum()),
+                       "d_C": float(np.abs(np.asarray(C_out, dtype=float) - C).max()), "d_pi_first": float(np.abs(pi_out - v1).max()) if left else None,
+                       "arg": _arr_summary(Cn, Cn0), "t_layout": [bool(np.asarray(T_out).flags["C_CONTIGUOUS"])]}
+    except Exception as ex:
+        out["norm"] = {"err": type(ex).__name__, "msg": str(ex)[:200]}
     return out
 
 
@@ -841,6 +1027,9 @@ def run_impl(c):
     if k == "bigeig":
         with np.errstate(all="ignore"):
             return _run_bigeig(c)
+    if k == "densebig":
+        with np.errstate(all="ignore"):
+            return _run_densebig(c)
     with np.errstate(all="ignore"):
         if k == "hist":
             return _run_hist(c)
@@ -1066,6 +1255,106 @@ def _oracle_ens(c, r):
     return out
 
 
+def _oracle_imp_rows(c, r, nt):
+    """the result has one row per entry of lag_times -- repeated entries included, in the order given -- and row i is
+    the single-lag computation for lag_times[i]"""
+    out = []
+    lags = c["lags"]
+    what = "lag_times=%s (%s)" % (lags, ", ".join(
+        (["repeated entries"] if len(set(lags)) < len(lags) else []) + (["not sorted"] if lags != sorted(lags) else [])) or "sorted, distinct")
+    shape = r.get("shape") or []
+    if len(shape) < 1 or shape[0] != len(lags):
+        out.append(("imp-rows", "%s has %d entries but the result has shape %s (expected %d rows, one per entry): rows no "
+                    "longer line up with the lag times" % (what, len(lags), tuple(shape), len(lags))))
+    rows, ref = r.get("times"), r.get("ref")
+    if rows is None or ref is None:
+        return out
+
+    def same(a, b):
+        if a is None or b is None:
+            return a is None and b is None
+        a, b = float(_F(a)), float(_F(b))
+        return abs(a - b) <= 1e-9 * max(1.0, abs(b))
+    for i, lag in enumerate(lags):
+        if i >= len(rows) or isinstance(ref[i], dict):
+            continue
+        if len(rows[i]) != len(ref[i]) or not all(same(a, b) for a, b in zip(rows[i], ref[i])):
+            out.append(("imp-row-vs-lag", "%s: row %d of implied_timescales is %s, calc_imp_times for lag_times[%d]=%d gives %s%s" % (
+                what, i, [None if x is None else float(_F(x)) for x in rows[i]], i, lag,
+                [None if x is None else float(_F(x)) for x in ref[i]],
+                "" if not any(isinstance(q, list) and len(q) == len(rows[i]) and all(same(a, b) for a, b in zip(rows[i], q))
+                              for q in ref) else " (the row belongs to lag time %d)" % next(
+                    l2 for l2, q in zip(lags, ref) if isinstance(q, list) and len(q) == len(rows[i]) and all(same(a, b) for a, b in zip(rows[i], q))))))
+            break
+    for i in range(min(len(rows), len(lags))):
+        for j in range(i + 1, min(len(rows), len(lags))):
+            if lags[i] == lags[j] and rows[i] != rows[j]:
+                out.append(("imp-duplicate-rows", "%s: rows %d and %d are both for lag time %d but differ" % (what, i, j, lags[i])))
+                return out
+    return out
+
+
+def _oracle_densebig(c, r):
+    """dense ndarray with >= 1000 states: spectrum sound; the caller's matrix is an input, not a work area; a function of
+    its arguments gives the same answer twice; later uses of the same matrix see the same matrix"""
+    out = []
+    inp = r.get("input", {})
+    what = "dense %s ndarray, %d states, %s-ordered (strongly connected lazy ring + random hops, _dense_counts(%d, %d) row-normalised), left=%s, n_eigs=%s" % (
+        inp.get("dtype"), c["n"], c["order"], c["n"], c["seed"], c["left"], c["n_eigs"])
+    if "err" in r:
+        return [("eig-no-value", "%s: %s %s" % (what, r["err"], r.get("msg")))]
+    TOL8 = 1e-8
+    f = r["first"]
+    k = c["n"] if c["n_eigs"] is None else min(c["n_eigs"], c["n"])
+    if not f["real"] or f["n_vals"] != k or f["shape"] != [c["n"], k]:
+        out.append(("eig-shape", "%s: not real or wrong shape: %d values, vectors %s" % (what, f["n_vals"], f["shape"])))
+    if not f["descending"]:
+        out.append(("eig-descending", "%s: values %s" % (what, f["vals"])))
+    if abs(f["vals"][0] - 1) > TOL8:
+        out.append(("eig-leading-one", "%s: leading value %r" % (what, f["vals"][0])))
+    name = "left" if c["left"] else "right"
+    if not (f["resid_snapshot"] <= TOL8) or abs(f["sum"] - 1) > TOL8 or f["min"] < -1e-10:
+        out.append(("eig-stationary", "%s: first %s eigenvector: residual %.3e against the matrix as passed in, sum %.10f, min %.2e" % (
+            what, name, f["resid_snapshot"], f["sum"], f["min"])))
+    if not (f["resid_held"] <= TOL8):
+        out.append(("eig-stationary", "%s: the returned first %s eigenvector is not %s for the T the caller holds after the call: "
+                    "max |%s - v| = %.3e" % (what, name, "stationary" if c["left"] else "invariant", "v T" if c["left"] else "T v", f["resid_held"])))
+    for stage, label in (("arg_after_first", "eigenspectrum(T)"),
+                         ("arg_after_second", "%s(T) on the same object" % r["second"]["via"]),
+                         ("arg_after_ens", "synthetic_ensemble(T, p0, 6)")):
+        a = r[stage]
+        if not a["same"]:
+            out.append(("argument-modified", "%s: %s changed the caller's transition matrix in place (max abs change %s, %s entries, "
+                        "row sums now in %s; dtype %s, C-contiguous %s)" % (what, label, a.get("max_change"), a.get("n_changed"),
+                                                                            a.get("rowsum_range"), a["dtype"], a["c_contig"])))
+            break
+    s2 = r["second"]
+    if not (s2["d_vec"] <= TOL8) or (s2["d_vals"] is not None and not (s2["d_vals"] <= TOL8)) or not (s2["resid_snapshot"] <= TOL8):
+        out.append(("eig-repeatable", "%s: decomposing the same matrix object twice (second time through %s) gives different answers: "
+                    "first vectors differ by %.3e, values by %s; second vector's residual against the matrix as passed in %.3e; "
+                    "first entries %s vs %s" % (what, s2["via"], s2["d_vec"], s2["d_vals"], s2["resid_snapshot"], f["head"], s2["head"])))
+    e = r["ens"]
+    if e["d_hist"] is None or not (e["d_end"] <= 1e-9) or not (e["d_hist"] <= 1e-9):
+        out.append(("ens-power", "%s: after the decomposition, synthetic_ensemble(T, p0, 6) is not p0 . T^5 for the matrix passed in: "
+                    "max abs difference %.3e (history %s), total population %.6g" % (what, e["d_end"], e["d_hist"], e["total"])))
+    nm = r.get("norm")
+    if nm is not None:
+        whatn = "builders.normalize on dense %s counts, %d states (_dense_counts(%d, %d))" % (c["counts_dtype"], c["n"], c["n"], c["seed"])
+        if "err" in nm:
+            out.append(("pipeline-normalize-dense", "%s raised %s %s" % (whatn, nm["err"], nm.get("msg"))))
+        else:
+            if nm["d_T"] is None or not (nm["d_T"] <= 1e-12) or not (nm["d_C"] == 0):
+                out.append(("pipeline-normalize-dense", "%s: returned transition probabilities are not counts/rowsum (max abs difference %s, "
+                            "row sums in %s; returned counts differ by %s)" % (whatn, nm["d_T"], nm["rowsum_range"], nm["d_C"])))
+            if not (nm["resid"] <= TOL8) or abs(nm["sum"] - 1) > TOL8:
+                out.append(("pipeline-normalize-dense", "%s: populations not stationary for counts/rowsum: residual %.3e, sum %.10f" % (
+                    whatn, nm["resid"], nm["sum"])))
+            if not nm["arg"]["same"]:
+                out.append(("argument-modified", "%s changed the caller's count matrix in place (max abs change %s)" % (
+                    whatn, nm["arg"].get("max_change"))))
+    return out
+
+
 def _oracle_imp(c, r):
     out = []
     ns = max(max(t) for t in c["trjs"]) + 1
@@ -1076,6 +1365,7 @@ def _oracle_imp(c, r):
         return out
     nt = c["n_times"] if c["n_times"] is not None else ns // 10 + 1
     nt = min(nt, ns - 1)
+    out += _oracle_imp_rows(c, r, nt)
     if len(r["T"]) != len(c["lags"]):
         out.append(("imp-shape", "builder called %d times for %d lag times" % (len(r["T"]), len(c["lags"]))))
         return out
@@ -1112,6 +1402,8 @@ def oracle(c, r):
         return [("harness", "run_impl failed: %s %s" % (r["err"], r.get("msg")))]
     if c["kind"] == "bigeig":
         return _oracle_bigeig(c, r)
+    if c["kind"] == "densebig":
+        return _oracle_densebig(c, r)
     return {"fit": _oracle_fit, "eig": _oracle_eig, "ens": _oracle_ens, "imp": _oracle_imp, "hist": _oracle_hist}[c["kind"]](c, r)
 
 
@@ -1250,7 +1542,7 @@ def _tie(c, r):
 
 
 def coq_check(c, r):
-    if c["kind"] == "bigeig":
+    if c["kind"] in ("bigeig", "densebig"):
         return None        # 1000+ states: oracle only
     if "err" in r and str(r["err"]).startswith("Unexpected"):
         return None
@@ -1277,7 +1569,7 @@ def coq_check(c, r):
 
 def coq_show(c):
     k = c["kind"]
-    if k == "bigeig":
+    if k in ("bigeig", "densebig"):
         return "tt"
     if k == "hist":
         st = c["steps"][-1]
@@ -1301,6 +1593,8 @@ def nontrivial(c, r):
     k = c["kind"]
     if k == "bigeig":
         return "err" not in r
+    if k == "densebig":
+        return "err" not in r and "err" not in r.get("norm", {"err": 1})
     if k == "hist":
         good = [rec for rec in r.get("steps", []) if "err" not in rec["est"] and len(rec["est"]["C"]) >= 2]
         return len(good) >= 2
@@ -1321,6 +1615,22 @@ def tags(c, r):
         return t + ["arpack-1000-states"] + (["arpack-repeated-calls"] if r.get("repeat") else []) + (
             ["arpack-crowded-cut-tolerated"] if ("vals" in r and max(abs(a - b) for a, b in zip(r["vals"], r["dense"])) > 1e-7
                                                 and _sparse_dense_key(c, r) == ARPACK_KEY) else [])
+    if k == "densebig":
+        inp = r.get("input", {})
+        t.append("dense-1000-states")
+        t.append("dense-order-%s" % c["order"])
+        t.append("dense-left" if c["left"] else "dense-right")
+        if inp.get("type") == "ndarray" and inp.get("dtype") == "float64" and inp.get("c_contig") and c["n"] >= 1000 and c["left"]:
+            t.append("dense-c-contiguous-float64-left")
+        if "arg_after_first" in r and "arg_after_second" in r:
+            t.append("dense-argument-unchanged-checked")
+        if "second" in r:
+            t += ["dense-call-twice", "dense-second-via-" + r["second"]["via"]]
+        if "ens" in r:
+            t.append("dense-ensemble-after-decomposition")
+        if "norm" in r and "err" not in r["norm"]:
+            t.append("dense-normalize-pipeline")
+        return t
     if k == "hist":
         steps, recs = c["steps"], r.get("steps", [])
         t.append("hist-steps=%d" % len(steps))
@@ -1387,6 +1697,15 @@ def tags(c, r):
             t.append("ens-rejects")
     else:
         t += ["imp-trim" if c["trim"] else "imp-notrim", "imp-sliding" if c["sliding"] else "imp-strided"]
+        dup, uns = len(set(c["lags"])) < len(c["lags"]), c["lags"] != sorted(c["lags"])
+        t += (["imp-lags-duplicate"] if dup else []) + (["imp-lags-unsorted"] if uns else []) + (
+            ["imp-lags-duplicate-and-unsorted"] if dup and uns else []) + (["imp-lags-sorted-distinct"] if not dup and not uns else [])
+        if c.get("grid"):
+            t.append("imp-grid:" + c["grid"])
+        if "err" not in r and r.get("ref") is not None and r.get("times") is not None:
+            t.append("imp-rows-vs-single-lag")
+            if dup:
+                t.append("imp-rows-vs-single-lag-duplicate")
         if "err" in r:
             t.append("imp-ragged-after-trim")
         elif r["times"] is not None:
@@ -1405,12 +1724,16 @@ ESSENTIAL_TAGS = ["arpack-1000-states", "kind:fit", "kind:eig", "kind:ens", "kin
                   "hist-change-maxn", "hist-change-method", "hist-change-data", "hist-change-state-count", "hist-same-data",
                   "hist-trim-on-to-off", "hist-trim-off-to-on", "hist-renumbered-then-untrimmed-same-size",
                   "hist-trim-mapping-changes", "eig:nearsym", "eig-allclose-symmetric-but-not-symmetric",
-                  "arpack-repeated-calls"]
+                  "arpack-repeated-calls",
+                  "imp-lags-duplicate", "imp-lags-unsorted", "imp-lags-duplicate-and-unsorted", "imp-lags-sorted-distinct",
+                  "imp-grid:loggrid", "imp-rows-vs-single-lag-duplicate",
+                  "dense-1000-states", "dense-c-contiguous-float64-left", "dense-argument-unchanged-checked", "dense-call-twice",
+                  "dense-ensemble-after-decomposition", "dense-normalize-pipeline"]
 
 
 def search(rng, tier):
     found = []
-    gens = [_gen_fit] * 6 + [_gen_eig, _gen_ens, _gen_imp]
+    gens = [_gen_fit] * 6 + [_gen_eig, _gen_ens, _gen_imp, lambda g: _gen_imp_grid(g, g.choice(GRID_STYLES))]
     for i in range(900):
         c = gens[i % len(gens)](rng)
         try:
